@@ -88,6 +88,22 @@ func record(out string, n int, sum *hx.Summary) {
 		for k := cnt() / 2; k > 0; k-- {
 			m.Extra = append(m.Extra, randRR(r, escapes))
 		}
+		huge := i%12 == 5
+		if huge { // replies that cross the 16384-octet compression-pointer range, cut at a size beyond it
+			m.Answer, m.Ns, m.Extra = nil, nil, nil
+			for k := 40 + r.Intn(50); k > 0; k-- {
+				m.Answer = append(m.Answer, mustRR(fmt.Sprintf("fill%d.early.example. 60 IN TXT \"%s\"", k, filler[:200+r.Intn(50)])))
+			}
+			late := []string{"late.zone.invalid.", "x.late.zone.invalid.", "other.late.example."}
+			for k := 200 + r.Intn(1200); k > 0; k-- {
+				rr := mustRR(fmt.Sprintf("h%d.%s 60 IN A 10.1.%d.%d", k, late[r.Intn(len(late))], k/256, k%256))
+				if r.Intn(2) == 0 {
+					m.Ns = append(m.Ns, rr)
+				} else {
+					m.Extra = append(m.Extra, rr)
+				}
+			}
+		}
 		if r.Intn(2) == 0 {
 			pos := r.Intn(len(m.Extra) + 1)
 			m.Extra = append(m.Extra[:pos], append([]dns.RR{opt(1 + r.Intn(2))}, m.Extra[pos:]...)...)
@@ -105,6 +121,11 @@ func record(out string, n int, sum *hx.Summary) {
 			size = packLen(m, false) + r.Intn(3) - 1
 		default:
 			size = 512 + r.Intn(1500)
+		}
+		if huge && r.Intn(4) != 0 {
+			if n := packLen(m, true) - 16000; n > 0 {
+				size = 16384 + r.Intn(n)
+			}
 		}
 		f := measure(m, size)
 		w.Emit(f)
